@@ -1,6 +1,9 @@
 package props
 
 import (
+	"go/types"
+	"go/constant"
+	"fmt"
 	"strings"
 
 	"golang.org/x/tools/go/ssa"
@@ -124,9 +127,77 @@ func checkC20(e *Env) {
 		}
 		subsetOf(e, "private-key-types", e.P.Pos(sup.Pos()), dedup(asserted), dedup(cases), "key types the sign-bundle sub-commands require", "key types ParsePrivateKey can return")
 	}
+	// (d) output files: what the tools write replaces the previous content
+	outputFiles(e)
 	e.R.Floor("PATHURL", 4)
 	e.R.Floor("GATE", 3)
 	e.R.Floor("TABLE", 1)
+	e.R.Floor("OUTFILE", 6)
+}
+
+// outputFiles (rule OUTFILE): every file the module opens for writing with
+// creation replaces what was there: os.Create, or os.OpenFile whose constant
+// flags contain O_TRUNC, O_EXCL or O_APPEND (or the function truncates the
+// file explicitly).  A stale tail after a shorter output breaks the
+// end-of-file length field of a signed bundle and the framing of every
+// other artifact.
+func outputFiles(e *Env) {
+	flag := func(name string) int64 {
+		if pkg := e.P.Prog.ImportedPackage("os"); pkg != nil {
+			if c, ok := pkg.Pkg.Scope().Lookup(name).(*types.Const); ok {
+				if v, ok := constant.Int64Val(c.Val()); ok {
+					return v
+				}
+			}
+		}
+		e.R.Undecided("OUTFILE", "os."+name, "-", "cannot resolve os."+name)
+		return 0
+	}
+	oWRONLY, oRDWR, oAPPEND, oCREATE, oEXCL, oTRUNC := flag("O_WRONLY"), flag("O_RDWR"), flag("O_APPEND"), flag("O_CREATE"), flag("O_EXCL"), flag("O_TRUNC")
+	for _, fn := range e.P.Funcs {
+		if !e.P.InModule(fn) {
+			continue
+		}
+		n := 0
+		truncates := false
+		for _, b := range fn.Blocks {
+			for _, in := range b.Instrs {
+				if c, ok := in.(ssa.CallInstruction); ok && prov.CalleeName(c.Common()) == "(*os.File).Truncate" {
+					truncates = true
+				}
+			}
+		}
+		for _, b := range fn.Blocks {
+			for _, in := range b.Instrs {
+				c, ok := in.(*ssa.Call)
+				if !ok {
+					continue
+				}
+				switch prov.CalleeName(&c.Call) {
+				case "os.Create":
+					n++
+					e.R.OK("OUTFILE", fmt.Sprintf("%s:os.Create#%d", load.FuncName(fn), n), e.P.InstrPos(in), "os.Create truncates")
+				case "os.OpenFile":
+					n++
+					key := fmt.Sprintf("%s:os.OpenFile#%d", load.FuncName(fn), n)
+					k, ok := c.Call.Args[1].(*ssa.Const)
+					if !ok {
+						e.R.Undecided("OUTFILE", key, e.P.InstrPos(in), "open flags are not a constant")
+						continue
+					}
+					fl := k.Int64()
+					switch {
+					case fl&(oWRONLY|oRDWR) == 0 || fl&oCREATE == 0:
+						e.R.OK("OUTFILE", key, e.P.InstrPos(in), "not an output file creation")
+					case fl&(oTRUNC|oEXCL|oAPPEND) != 0 || truncates:
+						e.R.OK("OUTFILE", key, e.P.InstrPos(in), "existing content is replaced (O_TRUNC/O_EXCL/O_APPEND or explicit Truncate)")
+					default:
+						e.R.Fail("OUTFILE", key, e.P.InstrPos(in), "output file is opened with O_CREATE but without O_TRUNC/O_EXCL: a longer previous file leaves a stale tail behind the new content")
+					}
+				}
+			}
+		}
+	}
 }
 
 // fsDerived: v is a string (or URL object) derived from a file-system path in a
